@@ -43,12 +43,12 @@ type COS struct {
 	ReadSize   int    `json:"read_size"`
 	// PeerExits (raw leg): the stand-in peer exits by itself once it has sent its bytes and seen
 	// the client's end marker; the client starts reading only afterwards
-	PeerExits bool `json:"peer_exits,omitempty"`
-	Netconf    bool   `json:"netconf,omitempty"` // raw leg: start the child through the netconf-subsystem path
-	Reopen     bool   `json:"reopen,omitempty"`  // raw leg: the transport object was opened and closed once before
-	ToSrv      []int  `json:"to_server,omitempty"`
-	FromSrv    []int  `json:"from_server,omitempty"`
-	DataSeed   uint64 `json:"data_seed,omitempty"`
+	PeerExits bool   `json:"peer_exits,omitempty"`
+	Netconf   bool   `json:"netconf,omitempty"` // raw leg: start the child through the netconf-subsystem path
+	Reopen    bool   `json:"reopen,omitempty"`  // raw leg: the transport object was opened and closed once before
+	ToSrv     []int  `json:"to_server,omitempty"`
+	FromSrv   []int  `json:"from_server,omitempty"`
+	DataSeed  uint64 `json:"data_seed,omitempty"`
 }
 
 func genCOS(prop string, legs []string) func(seed uint64, run int, tier string) Scenario {
